@@ -25,7 +25,8 @@ BOUNDS = ("1-8 multipliers; rank of J 1-4 (A singular when rank < m); maxIters 1
           "(1 quick / 2 thorough); path budget 6 (quick) / 10 (thorough) per instance and base point; products of more than 3000 terms abstracted, obligations whose own polynomial "
           "exceeds that size are left out (listed in the evidence assumptions)")
 TECHNIQUE = ("Engine S; each query is first sent to z3 as its linear-arithmetic relaxation over monomials (unsat there is a proof), the remaining ones to QF_NRA (nlsat)")
-NOT_COVERED = ("PLUSImpulseSolver (active-set solve through FactorQTZ/LAPACK: out of reach of the instrumentation); '[A+D]pi = rhs' for PGS only to the "
+NOT_COVERED = ("inequality clauses on those paths where neither the linear relaxation nor nlsat within a small deterministic budget decides them (counted in the evidence "
+               "assumptions; none in the quick tier at the default seed); PLUSImpulseSolver (active-set solve through FactorQTZ/LAPACK: out of reach of the instrumentation); '[A+D]pi = rhs' for PGS only to the "
                "convergence tolerance and only on paths where PGS reports convergence (it is an iterative method; SOR 1.2 is hard-wired so that no path is exact); "
                "sign of the final constraint-space velocity of an off contact after more than one sweep or when coupled rows are updated after it (PGS documents "
                "that it does not enforce it); 'friction opposes sliding' (PGS does not look at slip velocities); uniSpeed rows (ignored by PGSImpulseSolver::solve); "
@@ -53,7 +54,7 @@ def instances(tier, seed):
         out.append(dict(name="%s/K%d/it%d%s" % (rows, K, its, "/" + opts if opts else ""), args=[rows, str(K), str(its), opts],
                         paths=6 if tier == "quick" else 10, base_points=1 if tier == "quick" else 2,
                         flips_per_path=5 if tier == "quick" else 6, abstract_big=True, max_terms=3000, lra_first=True, seed_check=True,
-                        z3_timeout_ms=120000 if tier == "quick" else 300000, flip_timeout_ms=1000))
+                        z3_timeout_ms=120000, twin_timeout_ms=15000, flip_timeout_ms=1000))
     return out
 
 
@@ -233,7 +234,16 @@ def obligations(enc, inst, tr):
             enc.assumptions.append("obligations of row item '%s' left out on a path: polynomial exceeds the size limit (%s)" % (":".join(it), e))
     if only_uncond and tr.note("converged") == "1" and "tol" in opts:
         obs.append(_residual_ob(enc, tr, m, A, D, verr))
-    return obs
+    # inequality obligations that neither the linear relaxation nor nlsat (small deterministic budget) decides are left out on that path and counted
+    from spec.budget import PRE_RLIMIT, within_budget
+    hyps = [c for _, c in enc.path_condition()] + list(input_domain(enc, inst))
+    keep = []
+    for o in obs:
+        if all(c.rel == 1 for c in o.goal) or within_budget(enc, hyps, o):
+            keep.append(o)
+        else:
+            enc.assumptions.append("inequality left out on a path of %s (%s): neither the linear relaxation nor nlsat (rlimit %d) decides it" % (inst["name"], o.name, PRE_RLIMIT))
+    return keep
 
 
 def _residual_ob(enc, tr, m, A, D, verr):
